@@ -60,3 +60,36 @@ def searchsorted(a, v):
         else:
             lo = m
     return hi
+
+
+@jit(nopython=True)
+def searchsorted_cdf(cdf, v):
+    """
+    Inverse-CDF lookup: `searchsorted(cdf, v)`, except that the result
+    is always a valid index. Because of rounding in the cumulative sum,
+    `cdf[-1]` may be slightly smaller than 1, so that `v >= cdf[-1]` is
+    possible for `v` in [0, 1); in that case, return the smallest index
+    `i` such that `cdf[i] == cdf[-1]` (the last index with positive
+    probability mass).
+
+    Parameters
+    ----------
+    cdf : ndarray(float, ndim=1)
+        Cumulative distribution. Must be sorted in ascending order and
+        nonempty.
+
+    v : scalar(float)
+        Value in [0, 1).
+
+    Returns
+    -------
+    scalar(int)
+        Index in `range(len(cdf))`.
+
+    """
+    i = searchsorted(cdf, v)
+    if i == len(cdf):
+        i -= 1
+        while i > 0 and cdf[i-1] == cdf[i]:
+            i -= 1
+    return i
